@@ -157,7 +157,10 @@ fn pseudo_of<A: Alphabet>(p: &Pseudo) -> (Pseudocounts<A>, Vec<f64>) {
     }
 }
 
-fn chain_run<A: Alphabet>(case: &ChainCase, info: &mut CaseInfo) -> Option<Failure> {
+fn chain_run<A: Alphabet + PartialEq>(case: &ChainCase, info: &mut CaseInfo) -> Option<Failure>
+where
+    A::K: PartialEq,
+{
     let k = case.abc.k();
     let m = case.counts.len();
     let mut dm = DenseMatrix::<u32, A::K>::new(m);
@@ -207,6 +210,8 @@ fn chain_run<A: Alphabet>(case: &ChainCase, info: &mut CaseInfo) -> Option<Failu
     let one = freq.to_scoring(bg.clone());
     let two = weight.to_scoring();
     let twob = weight.to_scoring_with_base(base);
+    // whether the two routes compare equal as whole matrices, asked again below after one of them was queried
+    let routes_equal_at_first = one == two;
     let lb = (base as f64).ln();
     for i in 0..m {
         for j in 0..k {
@@ -299,6 +304,21 @@ fn chain_run<A: Alphabet>(case: &ChainCase, info: &mut CaseInfo) -> Option<Failu
         if !near(mx, argmax) {
             return Some(Failure::new("max_score:value", format!("max_score() = {} but the arg-max word scores {}", mx, argmax)));
         }
+        // `one` has now answered min_score() / max_score() and `two` has not: equality of two matrices depends on
+        // their cells and backgrounds, not on which read-only questions one of them was asked before
+        let _ = one.to_discrete();
+        info.comparisons += 1;
+        if (one == two) != routes_equal_at_first {
+            return Some(Failure::new(
+                "routes:equality-changed-by-a-query",
+                format!("freq.to_scoring(bg) == freq.to_weight(bg).to_scoring() was {} after construction and is {} after min_score() / max_score() / to_discrete() on the first", routes_equal_at_first, one == two),
+            ));
+        }
+        let fresh = lightmotif::pwm::ScoringMatrix::<A>::new(one.background().clone(), one.matrix().clone());
+        let nan = (0..m).any(|i| one.matrix()[i].iter().any(|x| x.is_nan()));
+        if !nan && one != fresh {
+            return Some(Failure::new("routes:equality-changed-by-a-query", "a queried scoring matrix differs from ScoringMatrix::new(its background, its cells)".to_string()));
+        }
         for w in &case.words {
             let s: f64 = (0..m).map(|i| cell(i, (w[i % w.len().max(1)] as usize) % (k - 1))).sum();
             info.comparisons += 1;
@@ -316,7 +336,7 @@ impl Sub for Chain {
         "chain"
     }
     fn rule(&self) -> &'static str {
-        "count matrix (M 0..30, cells 0..1000 and up to u32::MAX, both alphabets) x pseudocounts (scalar, per-symbol, or built for a scalar and then overwritten in place through AsMut) x background (uniform / from counts / dyadic, zero entries, non-zero wildcard, one symbol counted 1..3 times among billions) x second background x base {2,10,e,3.7,...}; to_freq, to_weight, to_scoring (one-step and two-step), to_scoring_with_base, rescale, min_score/max_score compared with the f64 definitions (tolerance 1e-5 relative); rows with zero total are excluded; non-trivial = M >= 2 and (non-uniform background or per-symbol pseudocounts or base != 2)"
+        "count matrix (M 0..30, cells 0..1000 and up to u32::MAX, both alphabets) x pseudocounts (scalar, per-symbol, or built for a scalar and then overwritten in place through AsMut) x background (uniform / from counts / dyadic, zero entries, non-zero wildcard, one symbol counted 1..3 times among billions) x second background x base {2,10,e,3.7,...}; to_freq, to_weight, to_scoring (one-step and two-step; cell by cell, and as whole matrices with == before and after one of the two answered min_score / max_score / to_discrete), to_scoring_with_base, rescale, min_score/max_score compared with the f64 definitions (tolerance 1e-5 relative); rows with zero total are excluded; non-trivial = M >= 2 and (non-uniform background or per-symbol pseudocounts or base != 2)"
     }
     fn cases(&self, tier: Tier) -> u64 {
         tier.pick(60_000, 1_500_000)
